@@ -173,4 +173,18 @@ theorem entries_are_the_backend_directory (s0 : St) (rs : List Req) (h0 : CInv s
 theorem no_dircache_is_cold (s : St) (p : Bytes) (h : s.dc = none) : DcCold s p := by
   intro c hc; rw [h] at hc; simp at hc
 
+/-- one READDIR call seen from the wire, after any history: on a directory the cache has no listing of (none
+    configured, or just dropped by one of the server's own mutations — Props.C02 `*_drops_parent_listing`), a call from
+    cookie 0 answered NFS3_OK with eof carries exactly the names of the backend's directory that the listing loop
+    accepts, in name order: nothing missing, nothing invented, nothing twice that the backend does not list twice. -/
+theorem readdir_reply_lists_the_directory (s0 : St) (rs : List Req) (h0 : CInv s0) (s' : St) (c : Ctx) (args : Bytes)
+    (a : Option Rfc.Fattr) (verf : Bytes) (ents : List Rfc.DirEnt) (hd : Nat) (r1 r2 : Bytes) (n : Node)
+    (hfh : decFh' (runReqs s0 rs) args = some (hd, r1)) (hck : decU64 r1 = some (0, r2))
+    (hn : nodeOf (runReqs s0 rs) hd = some n) (hcold : DcCold (runReqs s0 rs) n.path) (e : Fs.Entry)
+    (hwalk : Fs.walk (runReqs s0 rs).fs (fsPath n.path) = .ok e) (hk : e.kind = .dir)
+    (h : procReaddir (runReqs s0 rs) c args = (s', .res ⟨0, .readdirOk a verf ents true⟩)) :
+    ents.map (·.name) =
+      ((Fs.sortByName (Fs.children (runReqs s0 rs).fs (fsPath n.path))).map (·.1)).filter (listable n.path) :=
+  procReaddir_cold_whole _ s' c args a verf ents (runReqs_cinv s0 rs h0) hd r1 r2 n hfh hck hn hcold e hwalk hk h
+
 end Props.C26
